@@ -275,7 +275,8 @@ def decFn : Sexp → Option (Str × FnModel)
         | _ => none)
       pure (name, { cacheable := c == 1,
                     behave := fun i v =>
-                      if idxs.contains i || fargs.contains v || (match kind with | .atom "fail" => true | _ => false) then .error ("fail".toList ++ (toString i).toList)
+                      if (match kind with | .atom "fail" => true | _ => false) then .error "fail".toList
+                      else if idxs.contains i || fargs.contains v then .error ("fail".toList ++ (toString i).toList)
                       else .ok (base i v) })
   | _ => none
 
